@@ -11,7 +11,7 @@ COQ_TARGETS = ['theories/RouterCacheFacts.vo']
 COQ_IMPORTS = 'From Bac Require Import Base RouterCache.'
 RULE = ('cases: histories over {learn(snet, router, dnets, status), status(snet, router), forget router, forget dnets, '
         'forget dnets of a router, forget with neither (refused), renumber(old, new)} on source nets {None,1,2,3} x routers '
-        '{1,2,3} x dnets {10,11,12,13}: every history of length <= 2 over the 105-op alphabet, seeded random ones of length '
+        '{1,2,3} x dnets {10,11,12,13}: every history of length 1 over the 105-op alphabet, of length 2 over its 38-op core (all 105^2 in the thorough tier) plus 3000 seeded pairs, seeded random ones of length '
         '3..6, random ones of length 300 (also over a wider domain 5 x 5 x 8), the repaired-defect witnesses; the cache is '
         'dumped after EVERY operation (key sets, every router record, every lookup, identity of the record a path leads to). '
         'nsap cases: the same kind of history sent as real IAmRouterToNetwork / NetworkNumberIs / routed NPDUs over two '
@@ -475,10 +475,19 @@ def cases(rng, tier):
     alpha = alphabet(2)
     for o in alpha:
         out.append(case_hist([o], 'exh-len1'))
-    for a in alpha:
-        for b in alpha:
-            out.append(case_hist([a, b], 'exh-len2'))
     mid = alphabet(1)
+    if big:
+        for a in alpha:
+            for b in alpha:
+                out.append(case_hist([a, b], 'exh-len2'))
+    else:
+        # every pair of the 38-op alphabet, and a seeded third of the pairs of the full one (the
+        # direct predicate below still visits every pair, triple and quadruple on the implementation)
+        for a in mid:
+            for b in mid:
+                out.append(case_hist([a, b], 'exh-len2-mid'))
+        for _ in range(3000):
+            out.append(case_hist([rng.choice(alpha), rng.choice(alpha)], 'rand-len2'))
     if big:
         for h in itertools.product(mid, repeat=3):
             out.append(case_hist(list(h), 'exh-len3-mid'))
